@@ -77,6 +77,13 @@ func c03GenStream(g *gen, o c03StreamOpt) []c03SrcCmd {
 		}
 		if o.inline && g.r.Intn(5) == 0 && c03InlineSafe(c) {
 			c.nl = 10 + g.r.Intn(2) // an inline command line
+			if len(c.args) > 0 && g.r.Intn(3) == 0 && !strings.EqualFold(c.name, "select") {
+				// white space other than the blank inside an argument: TAB, VT, FF, NEL, NBSP, U+2028, U+3000 — an inline line is
+				// split at the ASCII blank only
+				ws := []string{"\t", "\v", "\f", "\xc2\x85", "\xc2\xa0", "\xe2\x80\xa8", "\xe3\x80\x80"}[g.r.Intn(7)]
+				k := g.r.Intn(len(c.args))
+				c.args[k] = append(append(append([]byte{}, c.args[k]...), ws...), 'z')
+			}
 		}
 		out = append(out, c)
 	}
